@@ -480,11 +480,13 @@ package gateway
 //@   trusted
 //@   requires [C25] wf: t.handler != nil && hInv(t.handler) && txWF(t.handler)
 //@   assigns *
-//@   ensures [C25] keeps: hInv(t.handler) && txWF(t.handler) && t.handler == old(t.handler) && state(t.handler) == old(state(t.handler))
-//@   ensures [C14] no_disconnect: (t.handler.mqttOutN == old(t.handler.mqttOutN) || t.handler.mqttOutN == old(t.handler.mqttOutN) + 1) &&
-//@      (t.handler.mqttOutN == old(t.handler.mqttOutN) + 1 ==> !istype(t.handler.mqttOut[old(t.handler.mqttOutN)], *mqPkts.DisconnectPacket))
-//@   ensures [C04] never_rebinds: forall k iface :: old(k in t.handler.registeredTopics) ==> (k in t.handler.registeredTopics) &&
-//@      smGet(t.handler.registeredTopics, k) == old(smGet(t.handler.registeredTopics, k))
+//@   let h0 = old(t.handler)
+//@   ensures [C25] same_handler: t.handler == h0
+//@   ensures [C25] keeps: hInv(h0) && txWF(h0) && state(h0) == old(state(h0))
+//@   ensures [C14] no_disconnect: (h0.mqttOutN == old(h0.mqttOutN) || h0.mqttOutN == old(h0.mqttOutN) + 1) &&
+//@      (h0.mqttOutN == old(h0.mqttOutN) + 1 ==> !istype(h0.mqttOut[old(h0.mqttOutN)], *mqPkts.DisconnectPacket))
+//@   ensures [C04] never_rebinds: forall k iface :: old(k in h0.registeredTopics) ==> (k in h0.registeredTopics) &&
+//@      smGet(h0.registeredTopics, k) == old(smGet(h0.registeredTopics, k))
 
 // ---- the step for a packet from the broker ----
 //@ spec snReply(h *handler1, n int) iface = h.snOut[n]
@@ -494,8 +496,11 @@ package gateway
 //@   assigns *
 //@   let s0 = old(h.snOutN)
 //@   let m0 = old(h.mqttOutN)
+//@   at Connack.0 before assert [C25] same_handler: arg(0).handler == h
 //@   at Puback.0 before assert [C25] entry_wf: txEntryWF(h, box(*clientPublishQOS1Transaction, arg(0)))
+//@   at Puback.0 before assert [C25] same_handler: arg(0).handler == h
 //@   at Suback.0 before assert [C25] entry_wf: txEntryWF(h, box(*subscribeTransaction, arg(0)))
+//@   at Suback.0 before assert [C25] same_handler_s: arg(0).handler == h
 //@   at Pubrel.0 before assert [C25] entry_wf: txEntryWF(h, box(*brokerPublishQOS2Transaction, arg(0)))
 //@   ensures [C25] keeps_basic: h.cfg != nil && h.state != nil && h.snConn != nil && h.mqttConn != nil && h.transactions != nil && state(h) <= 3
 //@   ensures [C25] keeps_store: storeInv(h.transactions)
@@ -534,56 +539,68 @@ package gateway
 //@   trusted
 //@   requires [C25] wf: t.handler != nil && hInv(t.handler) && txWF(t.handler)
 //@   assigns *
-//@   ensures [C25] keeps: hInv(t.handler) && txWF(t.handler) && t.handler == old(t.handler) && state(t.handler) == old(state(t.handler))
-//@   ensures [C14] no_disconnect: (t.handler.mqttOutN == old(t.handler.mqttOutN) || t.handler.mqttOutN == old(t.handler.mqttOutN) + 1) &&
-//@      (t.handler.mqttOutN == old(t.handler.mqttOutN) + 1 ==> !istype(t.handler.mqttOut[old(t.handler.mqttOutN)], *mqPkts.DisconnectPacket))
-//@   ensures [C04] never_rebinds: forall k iface :: old(k in t.handler.registeredTopics) ==> (k in t.handler.registeredTopics) &&
-//@      smGet(t.handler.registeredTopics, k) == old(smGet(t.handler.registeredTopics, k))
+//@   let h0 = old(t.handler)
+//@   ensures [C25] same_handler: t.handler == h0
+//@   ensures [C25] keeps: hInv(h0) && txWF(h0) && state(h0) == old(state(h0))
+//@   ensures [C14] no_disconnect: (h0.mqttOutN == old(h0.mqttOutN) || h0.mqttOutN == old(h0.mqttOutN) + 1) &&
+//@      (h0.mqttOutN == old(h0.mqttOutN) + 1 ==> !istype(h0.mqttOut[old(h0.mqttOutN)], *mqPkts.DisconnectPacket))
+//@   ensures [C04] never_rebinds: forall k iface :: old(k in h0.registeredTopics) ==> (k in h0.registeredTopics) &&
+//@      smGet(h0.registeredTopics, k) == old(smGet(h0.registeredTopics, k))
 //@ func (*brokerPublishQOS1Transaction).Regack
 //@   trusted
 //@   requires [C25] wf: t.handler != nil && hInv(t.handler) && txWF(t.handler)
 //@   assigns *
-//@   ensures [C25] keeps: hInv(t.handler) && txWF(t.handler) && t.handler == old(t.handler) && state(t.handler) == old(state(t.handler))
-//@   ensures [C14] no_disconnect: (t.handler.mqttOutN == old(t.handler.mqttOutN) || t.handler.mqttOutN == old(t.handler.mqttOutN) + 1) &&
-//@      (t.handler.mqttOutN == old(t.handler.mqttOutN) + 1 ==> !istype(t.handler.mqttOut[old(t.handler.mqttOutN)], *mqPkts.DisconnectPacket))
-//@   ensures [C04] never_rebinds: forall k iface :: old(k in t.handler.registeredTopics) ==> (k in t.handler.registeredTopics) &&
-//@      smGet(t.handler.registeredTopics, k) == old(smGet(t.handler.registeredTopics, k))
+//@   let h0 = old(t.handler)
+//@   ensures [C25] same_handler: t.handler == h0
+//@   ensures [C25] keeps: hInv(h0) && txWF(h0) && state(h0) == old(state(h0))
+//@   ensures [C14] no_disconnect: (h0.mqttOutN == old(h0.mqttOutN) || h0.mqttOutN == old(h0.mqttOutN) + 1) &&
+//@      (h0.mqttOutN == old(h0.mqttOutN) + 1 ==> !istype(h0.mqttOut[old(h0.mqttOutN)], *mqPkts.DisconnectPacket))
+//@   ensures [C04] never_rebinds: forall k iface :: old(k in h0.registeredTopics) ==> (k in h0.registeredTopics) &&
+//@      smGet(h0.registeredTopics, k) == old(smGet(h0.registeredTopics, k))
 //@ func (*brokerPublishQOS2Transaction).Regack
 //@   trusted
 //@   requires [C25] wf: t.handler != nil && hInv(t.handler) && txWF(t.handler)
 //@   assigns *
-//@   ensures [C25] keeps: hInv(t.handler) && txWF(t.handler) && t.handler == old(t.handler) && state(t.handler) == old(state(t.handler))
-//@   ensures [C14] no_disconnect: (t.handler.mqttOutN == old(t.handler.mqttOutN) || t.handler.mqttOutN == old(t.handler.mqttOutN) + 1) &&
-//@      (t.handler.mqttOutN == old(t.handler.mqttOutN) + 1 ==> !istype(t.handler.mqttOut[old(t.handler.mqttOutN)], *mqPkts.DisconnectPacket))
-//@   ensures [C04] never_rebinds: forall k iface :: old(k in t.handler.registeredTopics) ==> (k in t.handler.registeredTopics) &&
-//@      smGet(t.handler.registeredTopics, k) == old(smGet(t.handler.registeredTopics, k))
+//@   let h0 = old(t.handler)
+//@   ensures [C25] same_handler: t.handler == h0
+//@   ensures [C25] keeps: hInv(h0) && txWF(h0) && state(h0) == old(state(h0))
+//@   ensures [C14] no_disconnect: (h0.mqttOutN == old(h0.mqttOutN) || h0.mqttOutN == old(h0.mqttOutN) + 1) &&
+//@      (h0.mqttOutN == old(h0.mqttOutN) + 1 ==> !istype(h0.mqttOut[old(h0.mqttOutN)], *mqPkts.DisconnectPacket))
+//@   ensures [C04] never_rebinds: forall k iface :: old(k in h0.registeredTopics) ==> (k in h0.registeredTopics) &&
+//@      smGet(h0.registeredTopics, k) == old(smGet(h0.registeredTopics, k))
 //@ func (*brokerPublishQOS1Transaction).Puback
 //@   trusted
 //@   requires [C25] wf: t.handler != nil && hInv(t.handler) && txWF(t.handler)
 //@   assigns *
-//@   ensures [C25] keeps: hInv(t.handler) && txWF(t.handler) && t.handler == old(t.handler) && state(t.handler) == old(state(t.handler))
-//@   ensures [C14] no_disconnect: (t.handler.mqttOutN == old(t.handler.mqttOutN) || t.handler.mqttOutN == old(t.handler.mqttOutN) + 1) &&
-//@      (t.handler.mqttOutN == old(t.handler.mqttOutN) + 1 ==> !istype(t.handler.mqttOut[old(t.handler.mqttOutN)], *mqPkts.DisconnectPacket))
-//@   ensures [C04] never_rebinds: forall k iface :: old(k in t.handler.registeredTopics) ==> (k in t.handler.registeredTopics) &&
-//@      smGet(t.handler.registeredTopics, k) == old(smGet(t.handler.registeredTopics, k))
+//@   let h0 = old(t.handler)
+//@   ensures [C25] same_handler: t.handler == h0
+//@   ensures [C25] keeps: hInv(h0) && txWF(h0) && state(h0) == old(state(h0))
+//@   ensures [C14] no_disconnect: (h0.mqttOutN == old(h0.mqttOutN) || h0.mqttOutN == old(h0.mqttOutN) + 1) &&
+//@      (h0.mqttOutN == old(h0.mqttOutN) + 1 ==> !istype(h0.mqttOut[old(h0.mqttOutN)], *mqPkts.DisconnectPacket))
+//@   ensures [C04] never_rebinds: forall k iface :: old(k in h0.registeredTopics) ==> (k in h0.registeredTopics) &&
+//@      smGet(h0.registeredTopics, k) == old(smGet(h0.registeredTopics, k))
 //@ func (*brokerPublishQOS2Transaction).Pubrec
 //@   trusted
 //@   requires [C25] wf: t.handler != nil && hInv(t.handler) && txWF(t.handler)
 //@   assigns *
-//@   ensures [C25] keeps: hInv(t.handler) && txWF(t.handler) && t.handler == old(t.handler) && state(t.handler) == old(state(t.handler))
-//@   ensures [C14] no_disconnect: (t.handler.mqttOutN == old(t.handler.mqttOutN) || t.handler.mqttOutN == old(t.handler.mqttOutN) + 1) &&
-//@      (t.handler.mqttOutN == old(t.handler.mqttOutN) + 1 ==> !istype(t.handler.mqttOut[old(t.handler.mqttOutN)], *mqPkts.DisconnectPacket))
-//@   ensures [C04] never_rebinds: forall k iface :: old(k in t.handler.registeredTopics) ==> (k in t.handler.registeredTopics) &&
-//@      smGet(t.handler.registeredTopics, k) == old(smGet(t.handler.registeredTopics, k))
+//@   let h0 = old(t.handler)
+//@   ensures [C25] same_handler: t.handler == h0
+//@   ensures [C25] keeps: hInv(h0) && txWF(h0) && state(h0) == old(state(h0))
+//@   ensures [C14] no_disconnect: (h0.mqttOutN == old(h0.mqttOutN) || h0.mqttOutN == old(h0.mqttOutN) + 1) &&
+//@      (h0.mqttOutN == old(h0.mqttOutN) + 1 ==> !istype(h0.mqttOut[old(h0.mqttOutN)], *mqPkts.DisconnectPacket))
+//@   ensures [C04] never_rebinds: forall k iface :: old(k in h0.registeredTopics) ==> (k in h0.registeredTopics) &&
+//@      smGet(h0.registeredTopics, k) == old(smGet(h0.registeredTopics, k))
 //@ func (*brokerPublishQOS2Transaction).Pubcomp
 //@   trusted
 //@   requires [C25] wf: t.handler != nil && hInv(t.handler) && txWF(t.handler)
 //@   assigns *
-//@   ensures [C25] keeps: hInv(t.handler) && txWF(t.handler) && t.handler == old(t.handler) && state(t.handler) == old(state(t.handler))
-//@   ensures [C14] no_disconnect: (t.handler.mqttOutN == old(t.handler.mqttOutN) || t.handler.mqttOutN == old(t.handler.mqttOutN) + 1) &&
-//@      (t.handler.mqttOutN == old(t.handler.mqttOutN) + 1 ==> !istype(t.handler.mqttOut[old(t.handler.mqttOutN)], *mqPkts.DisconnectPacket))
-//@   ensures [C04] never_rebinds: forall k iface :: old(k in t.handler.registeredTopics) ==> (k in t.handler.registeredTopics) &&
-//@      smGet(t.handler.registeredTopics, k) == old(smGet(t.handler.registeredTopics, k))
+//@   let h0 = old(t.handler)
+//@   ensures [C25] same_handler: t.handler == h0
+//@   ensures [C25] keeps: hInv(h0) && txWF(h0) && state(h0) == old(state(h0))
+//@   ensures [C14] no_disconnect: (h0.mqttOutN == old(h0.mqttOutN) || h0.mqttOutN == old(h0.mqttOutN) + 1) &&
+//@      (h0.mqttOutN == old(h0.mqttOutN) + 1 ==> !istype(h0.mqttOut[old(h0.mqttOutN)], *mqPkts.DisconnectPacket))
+//@   ensures [C04] never_rebinds: forall k iface :: old(k in h0.registeredTopics) ==> (k in h0.registeredTopics) &&
+//@      smGet(h0.registeredTopics, k) == old(smGet(h0.registeredTopics, k))
 
 // ---- the step for a packet from the client ----
 // decodable: facts every packet produced by the decoder satisfies (C22 postconditions of Unpack).
